@@ -43,6 +43,7 @@ ORACLE_GROUPS = {
     'C05': [('src/algorithms/centrality/betweenness.rs', 'betweenness_oracle')],
     'C06': [('src/algorithms/centrality/closeness.rs', 'closeness_oracle')],
     'C15': [('src/graph/convert.rs', 'derived_oracle'), ('src/graph/subgraph.rs', 'derived_oracle')],
+    'C16': [('src/generators/', 'generators_oracle')],
 }
 
 
